@@ -207,7 +207,7 @@ fn lazy_parser(case: &CaseSpec, shared: Rc<RefCell<ParserShared>>) -> LazyParser
     LazyParser { items, shared }
 }
 
-fn custom_which(
+pub fn custom_which(
     _f: &gherkin::Feature,
     _r: Option<&gherkin::Rule>,
     s: &gherkin::Scenario,
